@@ -140,6 +140,12 @@ def family(seed, count):
                 out.append({"a": ("", ("seq", [("op", rep, ("op", "", twice)), ("ref", "ANY")])), "b": ("", ("ref", "c")), "c": ("", cb)})
             out.append({"a": ("", ("alt", [("seq", [twice, ("ref", "a")]), ("ref", "ANY")])), "b": ("", ("ref", "c")), "c": ("", cb)})
             out.append({"a": ("", ("seq", [L("x"), L("y")])), "b": ("", ("ref", "c")), "c": ("", cb), "WHITESPACE": ("_", twice)})
+    # left recursion through a rule that redefines a non-keyword built-in name
+    for nm in ("NEWLINE", "ASCII_DIGIT", "LETTER", "NUMBER", "ASCII_ALPHA"):
+        out.append({nm: ("", ("alt", [("seq", [("ref", nm), L("+"), L("x")]), L("x")])), "b": ("", L("y"))})
+        out.append({"a": ("", ("seq", [("ref", nm), L("y")])), nm: ("", ("alt", [("seq", [("ref", "a"), L("+")]), L("x")]))})
+        out.append({"a": ("", ("seq", [("op", "?", L("-")), ("ref", nm)])), nm: ("", ("seq", [("ref", "a"), L("x")]))})
+        out.append({"a": ("", ("seq", [("ref", nm), L("y")])), nm: ("", L("x"))})
     rng.shuffle(out)
     # de-duplicate by text
     seen = set(); res = []
@@ -212,7 +218,7 @@ def run(ctx):
     rej = [(r, t, s["error"]) for r, t, s in zip(fam, texts, stages) if "error" in s]
     panics = [x for x in rej if x[2].startswith("PANIC")]
     t0 = time.time()
-    res = par.pmap(search, [(s["ast"], [n for n in r if n in ("a", "b")], N) for r, t, s in acc], NCPU)
+    res = par.pmap(search, [(s["ast"], [n for n in r if n not in ("WHITESPACE", "COMMENT", "c")][:2], N) for r, t, s in acc], NCPU)
     errs = [(acc[i][1], x[1]) for i, x in enumerate(res) if x[0] == "err"]
     if errs: raise Inconclusive(f"search failed on {len(errs)} grammars, e.g.\n{errs[0][0]}\n{errs[0][1][:1200]}")
     res = [x[1] for x in res]
